@@ -1,4 +1,5 @@
 import GixModel.Lemmas.C31Dec
+import GixModel.Lemmas.C31DecFull
 import GixModel.Lemmas.C31NegRun
 /-
 C31 — Fetching and cloning reproduce the server's objects and references.  PROPERTY THEOREMS ONLY.
@@ -49,6 +50,40 @@ outside `refs/tags/` (e.g. `refs/tags/*:refs/imported/*`) whose new value does n
 old one is rejected by git and stored by gitoxide (replayed against both by the harness). -/
 theorem decision_full_is_false : ¬ C31_decision_full :=
   decision_full_false
+
+/-- ROUND 2 — full characterisation on ALL situations (also an unborn remote HEAD, a destination that
+is a dangling symbolic ref, a mapping without destination, an object that did not arrive): for every
+lawful object world, gitoxide leaves the destination in the state git leaves it in IF AND ONLY IF the
+situation is none of the four explicitly listed deviations (`Deviates`: unborn remote reproduced
+locally; missing object = git dies; dangling-symref destination checked out or already naming the
+remote's target; tag object outside refs/tags rejected by git). -/
+theorem update_effect_eq_git_iff (w : World) (hw : w.Lawful) (s : Sit) :
+    (gixDecide w s).effect = gitEffectX w s ↔ ¬ Deviates w s :=
+  effect_eq_iff w hw s
+
+/-- `gitEffectX` is the old transcription wherever that one applies -/
+theorem gitEffectX_eq_gitDecide (w : World) (s : Sit) (hd : InDomain s) :
+    gitEffectX w s = (gitDecide w s).effect :=
+  gitEffectX_inDomain w s hd
+
+/-- ROUND 2 — `update_mode_eq_git` as an equivalence: on the common domain the mode stands for git's
+outcome exactly when no tag object takes part in the fast-forward decision (`TagModeMismatch`). -/
+theorem update_mode_eq_git_iff (w : World) (hw : w.Lawful) (s : Sit) (hd : InDomain s) :
+    (gixDecide w s).agrees (gitDecide w s) = true ↔ ¬ TagModeMismatch w s :=
+  agrees_iff w hw s hd
+
+-- non-vacuity: each clause of `Deviates` is inhabited, and so is its complement
+example : Deviates witnessWorld witnessSit :=
+  ⟨rfl, Or.inr (Or.inr (Or.inr ⟨rfl, rfl, rfl, rfl, rfl, by decide, rfl, Or.inl rfl, 3, 4, rfl, rfl, rfl, rfl⟩))⟩
+example : Deviates witnessWorld { witnessSit with remoteUnborn := true, localExists := false } :=
+  ⟨rfl, Or.inl ⟨rfl, Or.inl rfl⟩⟩
+example : Deviates witnessWorld { witnessSit with newExists := false } := ⟨rfl, Or.inr (Or.inl ⟨rfl, rfl⟩)⟩
+example : Deviates witnessWorld { witnessSit with localUnborn := true, unbornSameTarget := true } :=
+  ⟨rfl, Or.inr (Or.inr (Or.inl ⟨rfl, rfl, rfl, rfl, Or.inr rfl⟩))⟩
+example : ¬ Deviates witnessWorld { witnessSit with force := true } := by
+  rw [← update_effect_eq_git_iff witnessWorld witnessWorld_lawful]; decide
+example : ¬ Deviates witnessWorld { witnessSit with localUnborn := true } := by
+  rw [← update_effect_eq_git_iff witnessWorld witnessWorld_lawful]; decide
 
 open GixModel.C31.Neg in
 /-- Whatever the algorithm, the commit graph, the order in which the heaps hand out elements, the
